@@ -147,6 +147,16 @@ impl World {
         p
     }
 
+    /// id of a payload built by `payload` (or by the harness engine): its first 8 bytes
+    pub fn payload_id(&mut self, p: &validator::Payload) -> u64 {
+        let mut b = [0u8; 8];
+        let k = p.0.len().min(8);
+        b[..k].copy_from_slice(&p.0[..k]);
+        let id = u64::from_le_bytes(b);
+        self.hash_ids.insert(p.hash(), id);
+        id
+    }
+
     pub fn payload_hash(&mut self, id: u64) -> validator::PayloadHash {
         self.payload(id).hash()
     }
